@@ -115,3 +115,14 @@ func loadChunk(t *rt.Thread, args []rt.Value) (chunk []byte, chunkName string, e
 	t.LinearRequire(10, uint64(len(chunk)))
 	return chunk, chunkName, nil
 }
+
+func init() {
+	// These function values are shared by all runtimes: declare their
+	// compliance once, here, so that load (which may run concurrently for
+	// different runtimes) never has to modify them.
+	rt.SolemnlyDeclareCompliance(
+		rt.ComplyCpuSafe|rt.ComplyMemSafe|rt.ComplyTimeSafe|rt.ComplyIoSafe,
+		ipairsIterator,
+		nextGoFunc,
+	)
+}
